@@ -11,8 +11,8 @@ import common
 import coqgen
 
 CONF = {
-    "C01": dict(kinds="sim,assess", n=(240, 2400), opts=["depth=2", "collide=0.05", "jit=0.2"]),
-    "C02": dict(kinds="gen", n=(220, 2200), opts=["depth=2", "collide=0.02", "jit=0.15"]),
+    "C01": dict(kinds="sim,assess", n=(240, 2400), opts=["depth=2", "collide=0.05", "jit=0.2", "dkinds=0,1,2,4"]),
+    "C02": dict(kinds="gen", n=(220, 2200), opts=["depth=2", "collide=0.02", "jit=0.15", "dkinds=0,1,2,4,4"]),
     "C03": dict(kinds="hist", n=(200, 2000), opts=["depth=2", "collide=0", "ops=upd,back", "maxops=4"]),
     "C04": dict(kinds="hist", n=(200, 2000), opts=["depth=2", "collide=0", "ops=regen", "maxops=3"]),
     "C05": dict(kinds="hist", n=(160, 1600), opts=["depth=2", "collide=0", "ops=upd,regen,back", "maxops=8"]),
